@@ -83,7 +83,7 @@ class PathRun:
         proofs (pruning is sound); anything else counts as feasible."""
         key = (len(self.assumed), cond.get_id() if hasattr(cond, "get_id") else cond)
         if key in self._sat_cache:
-            return self._sat_cache[key]
+            return self._sat_cache[key][1]
         t0 = time.time()
         s, r = self.solve([cond], 5000, rlimit=FEAS_RLIMIT)
         smt.STATS.add(smt.Query("feasibility", str(r), time.time() - t0, "z3", "feasibility"))
@@ -92,7 +92,8 @@ class PathRun:
                 print("RL", str(r), [v for k, v in s.statistics() if k == "rlimit count"], round(time.time() - t0, 3))
             except Exception:
                 pass
-        self._sat_cache[key] = (r != z3.unsat)
+        # (the term is stored with the verdict: z3 reuses AST ids once a term is garbage collected)
+        self._sat_cache[key] = (cond, r != z3.unsat)
         return r != z3.unsat
 
     def fork(self, cond):
@@ -179,10 +180,17 @@ class PathRun:
         reason = None
         if r == z3.unknown:
             reason = solver.reason_unknown()
+            if self.explorer.use_cvc5:
+                r2, secs2 = cvc5_check(solver, self.explorer.cvc5_seconds)
+                smt.STATS.add(smt.Query(name, r2, secs2, "cvc5", "obligation"))
+                if r2 == "unsat":
+                    r = z3.unsat
+                    note = ((note or "") + " [discharged by cvc5 --strings-exp after z3: unknown]").strip()
         smt.STATS.add(smt.Query(name, str(r), secs, "z3", "obligation"))
         verdict = "discharged" if r == z3.unsat else ("refuted" if r == z3.sat else "undecided")
         ob = Obligation(name, verdict, secs, self.path_id(), model, None,
-                        note if verdict != "undecided" else "solver: %s" % reason)
+                        note if verdict != "undecided" else "solver: %s" % reason,
+                        backend="cvc5" if (note and "cvc5" in note) else "z3")
         ob.witness = wit
         if verdict != "discharged":
             ob.formulas = (list(self.assumed), goal)
@@ -255,6 +263,33 @@ class PathRun:
         return r == z3.sat
 
 
+def cvc5_check(solver, seconds):
+    """Second back end for string obligations: /usr/bin/cvc5 --strings-exp on the solver's
+    SMT-LIB text.  Only `unsat` is used (a proof); anything else leaves the verdict to z3."""
+    import os
+    import subprocess
+    import tempfile
+    t0 = time.time()
+    txt = solver.to_smt2()
+    fd, path = tempfile.mkstemp(suffix=".smt2", prefix="pyvc-")
+    try:
+        with os.fdopen(fd, "w") as fh:
+            fh.write("(set-logic ALL)\n" + txt)
+        try:
+            p = subprocess.run(["/usr/bin/cvc5", "--strings-exp", "--tlimit=%d" % (seconds * 1000), path],
+                               capture_output=True, text=True, timeout=seconds + 10)
+            out = (p.stdout or "").strip().splitlines()
+            res = out[0] if out else "error"
+        except subprocess.TimeoutExpired:
+            res = "timeout"
+    finally:
+        try:
+            os.remove(path)
+        except OSError:
+            pass
+    return (res if res in ("sat", "unsat", "unknown") else "error:" + res[:40]), time.time() - t0
+
+
 _qcache = {}
 
 
@@ -262,8 +297,8 @@ def has_quantifier(f):
     if isinstance(f, bool):
         return False
     k = f.get_id()
-    if k in _qcache:
-        return _qcache[k]
+    if k in _qcache and _qcache[k][0].eq(f):
+        return _qcache[k][1]
     seen = set()
     stack = [f]
     r = False
@@ -277,7 +312,9 @@ def has_quantifier(f):
             r = True
             break
         stack.extend(t.children())
-    _qcache[k] = r
+    if len(_qcache) > 20000:
+        _qcache.clear()
+    _qcache[k] = (f, r)
     return r
 
 
@@ -320,6 +357,8 @@ class Explorer:
         self.minimize = []
         self.canaries = []
         self.on_path = None
+        self.use_cvc5 = True
+        self.cvc5_seconds = 20
 
     def run(self):
         self.pending = [[]]
